@@ -2011,7 +2011,7 @@ void MatrixGetMaxValueIndex(matrix* m, size_t* row, size_t* col)
   for(j = 0; j < m->col; j++){
     for(i = 0; i < m->row; i++){
       tmp_value = m->data[i][j];
-      if(tmp_value > best_value || FLOAT_EQ(tmp_value, best_value, EPSILON)){
+      if(tmp_value > best_value){
         best_value = tmp_value;
         if(col != NULL)
           (*col) = j;
@@ -2042,7 +2042,7 @@ void MatrixGetMinValueIndex(matrix* m, size_t* row, size_t* col)
   for(j = 0; j < m->col; j++){
     for(i = 0; i < m->row; i++){
       tmp_value = m->data[i][j];
-      if(tmp_value < best_value || FLOAT_EQ(tmp_value, best_value, EPSILON)){
+      if(tmp_value < best_value){
         best_value = tmp_value;
         if(col != NULL)
           (*col) = j;
